@@ -100,6 +100,29 @@ class OwnGen:
             return p.format(**fill)
         return "%s = %s" % (self.ty(scope), self.ty(scope, 1))
 
+    def goal_mixed(self):
+        """unknowns in different universes tied by one atom: exists<outer> { forall<..> { exists<inner> { atom(inner, outer) } } }"""
+        ok = [(p, o) for p in self.patterns for o in ("{L0}", "{C0}", "{T1}") if "{T0}" in p and o in p]
+        if not ok:
+            return self.goal()
+        p, o = self.r.choice(ok)
+        kind = {"{L0}": "L", "{C0}": "C", "{T1}": "T"}[o]
+        outer = self.fresh(kind)
+        mid = self.fresh(self.r.choice(["T", "T", "L"]))
+        inner = self.fresh("T")
+        scope = [(kind, outer), ("T", inner)]
+        fill = {"T0": inner, "T1": self.ty(scope, 1), "L0": self.lt(scope), "L1": self.lt(scope), "C0": self.cst(scope), "C1": self.cst(scope)}
+        fill[o[1:-1]] = outer
+        atoms = [p.format(**fill)]
+        if self.r.random() < 0.3:
+            atoms.append(self.atom(scope))
+        decl = lambda k, v: ("const " + v) if k == "C" else v
+        pre = ""
+        post = ""
+        if self.r.random() < 0.3:
+            pre, post = "forall<%s> { " % self.fresh("T"), " }"
+        return "%sexists<%s> { forall<%s> { exists<%s> { %s } } }%s" % (pre, decl(kind, outer), mid, inner, ", ".join(atoms), post)
+
     def goal(self):
         """nested quantifier prefix over a conjunction, possibly with a hypothesis and an inner quantifier"""
         scope = []
@@ -178,7 +201,8 @@ def run(ctx):
             cases.append(("proggen-corpus", ("Case", sx.Str(pg.to_text(p)), gs, k_multi, cpu)))
     og = OwnGen(r)
     for _ in range(ctx.n(45, 900)):
-        cases.append(("own", ("Case", sx.Str(og.program()), [sx.Str(og.goal()) for _ in range(5)], k_multi, cpu)))
+        prog = og.program()
+        cases.append(("own", ("Case", sx.Str(prog), [sx.Str(og.goal_mixed() if j < 2 else og.goal()) for j in range(5)], k_multi, cpu)))
     for _ in range(ctx.n(25, 600)):
         p = pg.gen_program(r)
         gg = pg.GoalGen(r, p)
@@ -192,6 +216,8 @@ def run(ctx):
             cases.append(("proggen", ("Case", sx.Str(pg.to_text(p)), gs, k_multi, cpu)))
     outs = core.run_harness("canon", [c[1] for c in cases], args=["answers"], timeout=900)
 
+    fam_of = {}
+    vfam = {}
     answers = []     # (case, query, source, binders, subst, applied)
     stats = {"goals": 0, "goal_errors": 0, "program_errors": 0, "goal_died": 0, "no_solution": 0, "ambig_unknown": 0, "floundered": 0,
              "solver_panics_other": 0, "answers": 0, "answers_with_binders": 0, "answers_nonground_query": 0, "harness_failures": 0,
@@ -210,6 +236,7 @@ def run(ctx):
             continue
         for gtext, gres in zip(case[2], v[1]):
             one = ("Case", case[1], [gtext], case[3], case[4])
+            fam_of[sx.to_sexp(one)] = fam
             stats["goals"] += 1
             if gres[0] == "GoalError":
                 stats["goal_errors"] += 1
@@ -271,14 +298,18 @@ def run(ctx):
     bad = coq_mismatches(ctx.work, "wf_answer", imports, fn="(fun p => wf_query (fst p) && wf_answer (fst p) (snd p))", eqb="Bool.eqb",
                               in_ty="query * answer", out_ty="bool", pairs=wf_pairs, shard=ctx.n(100, 400))
     ctx.cov["families"]["wf_answer(real answers)"] = {"cases": len(wf_pairs), "nontrivial": sum(1 for a in answers if a[3] or a[1][1][0]), "rejected": len(bad)}
-    for j in bad[:4]:
+    recorded = 0
+    for j in bad:
         case, query, src, bs, subst, applied = answers[j]
-        parts = core.coq_eval(ctx.work, "wf_parts", imports, [
-            "let q := %s in let a := %s in (wf_query q, kinds_match (a_subst a) (q_binders q), forallb (closed_f (map fst (a_binders a)) 0) (a_subst a), "
-            "forallb (fun b => snd b <? q_universes q) (a_binders a), forallb (ph_below (q_universes q)) (a_subst a), "
-            "entries_univ_ok (map snd (a_binders a)) (a_subst a) (q_binders q))" % (sx.to_coq(query), sx.to_coq(Pair(bs, subst)))])[0]
-        if viol < 4:
-            ctx.violation({"kind": "property", "what": "a returned solution is not a well-formed answer for its query (Coq wf_query/wf_answer = false)", "solver": src,
+        f_ = fam_of.get(sx.to_sexp(case), "?")
+        vfam[f_] = vfam.get(f_, 0) + 1
+        if (viol < 4 or vfam[f_] == 1) and recorded < 6:
+            recorded += 1
+            parts = core.coq_eval(ctx.work, "wf_parts", imports, [
+                "let q := %s in let a := %s in (wf_query q, kinds_match (a_subst a) (q_binders q), forallb (closed_f (map fst (a_binders a)) 0) (a_subst a), "
+                "forallb (fun b => snd b <? q_universes q) (a_binders a), forallb (ph_below (q_universes q)) (a_subst a), "
+                "entries_univ_ok (map snd (a_binders a)) (a_subst a) (q_binders q))" % (sx.to_coq(query), sx.to_coq(Pair(bs, subst)))])[0]
+            ctx.violation({"kind": "property", "what": "a returned solution is not a well-formed answer for its query (Coq wf_query/wf_answer = false)", "solver": src, "family": f_,
                            "parts(wf_query, one entry per binder of its kind, closed under own binders, binder universes < query universes, placeholder universes < query universes, per unknown: value stays within the unknown's universe)": parts,
                            "case": sx.to_sexp(case), "query": sx.to_sexp(query), "answer": sx.to_sexp(Pair(bs, subst))})
         viol += 1
@@ -296,6 +327,7 @@ def run(ctx):
                            "broken": "correspondence Infer.Answer.apply_answer = Substitution::apply; wf_answer_applies is about the model. Every real answer was well-formed and applied without panic."},
                           no_input=True)
     ctx.cov["property_violations"] = viol
+    ctx.cov["wf_violations_by_family"] = vfam
     ctx.cov["rule"] = ("programs x goals: (a) own generator: structs with type / lifetime / const parameters, traits with type / lifetime / const parameters, 3-9 impls of a pool of 20; goals = 1-4 nested forall/exists blocks "
                        "binding types, lifetimes and consts, 1-3 atoms (Implemented / equality), optional hypothesis or inner quantifier; (b) vlib.proggen programs with existential goals; (c) the DESIGN section 5 witnesses. "
                        "Each goal is peeled+canonicalized by the real into_peeled_goal and solved by SLG solve, recursive solve and SLG solve_multiple (<= %d answers), each in a forked child with a %d s CPU limit. "
